@@ -158,6 +158,13 @@ class SparselyBin(Factory, Container):
             out.bins[i] = Count.ed(v.entries)
         return out.specialize()
 
+    def _checkCompatibleContent(self, other):
+        """Bins with disjoint keys are never added pairwise: probe one representative of each side instead."""
+        mine = self.value if self.value is not None else next(iter(self.bins.values()), None)
+        theirs = other.value if other.value is not None else next(iter(other.bins.values()), None)
+        if mine is not None and theirs is not None:
+            mine + theirs  # raises ContainerException if the structures differ at any depth
+
     def _keepContentType(self, out):
         """An immutable container (from JSON or ed) has no value template.
 
@@ -188,6 +195,7 @@ class SparselyBin(Factory, Container):
                 raise ContainerException(
                     f"cannot add SparselyBins because bin type differs ({self.contentType} vs {other.contentType})"
                 )
+            self._checkCompatibleContent(other)
 
             out = SparselyBin(
                 self.binWidth,
@@ -225,6 +233,7 @@ class SparselyBin(Factory, Container):
                 raise ContainerException(
                     f"cannot add SparselyBins because bin type differs ({self.contentType} vs {other.contentType})"
                 )
+            self._checkCompatibleContent(other)
             self.entries += other.entries
             for i, v in other.bins.items():
                 if i in self.bins:
